@@ -7,13 +7,16 @@ pub mod ideal {
     use vstd::std_specs::ops::*;
     use vstd::std_specs::cmp::*;
     use core::cmp::Ordering;
-    use super::fax::{i2f, f2i, fneg_spec};
+    use super::fax::{i2f, f2i, fneg_spec, fabs_spec};
     pub uninterp spec fn R(x: f32) -> real;
     pub broadcast axiom fn ax_r_add(a: f32, b: f32) ensures #[trigger] R(a.add_spec(b)) == R(a) + R(b);
     pub broadcast axiom fn ax_r_sub(a: f32, b: f32) ensures #[trigger] R(a.sub_spec(b)) == R(a) - R(b);
     pub broadcast axiom fn ax_r_mul(a: f32, b: f32) ensures #[trigger] R(a.mul_spec(b)) == R(a) * R(b);
     pub broadcast axiom fn ax_r_div(a: f32, b: f32) requires R(b) != 0real ensures #[trigger] R(a.div_spec(b)) == R(a) / R(b);
     pub broadcast axiom fn ax_r_neg(a: f32) ensures #[trigger] R(fneg_spec(a)) == -R(a);
+    pub broadcast axiom fn ax_r_abs(a: f32) ensures #[trigger] R(fabs_spec(a)) == (if R(a) >= 0real { R(a) } else { -R(a) });
+    // float -> integer cast truncates toward zero; stated for the non-negative range (used for durations)
+    pub broadcast axiom fn ax_r_f2i(a: f32) requires R(a) >= 0real ensures (#[trigger] f2i(a)) as real <= R(a), R(a) < f2i(a) as real + 1real;
     pub broadcast axiom fn ax_r_i2f(i: i64) ensures #[trigger] R(i2f(i)) == i as real;
     pub broadcast axiom fn ax_r_eq(a: f32, b: f32) ensures #[trigger] a.eq_spec(&b) == (R(a) == R(b));
     pub broadcast axiom fn ax_r_cmp(a: f32, b: f32) ensures
@@ -22,6 +25,6 @@ pub mod ideal {
     pub broadcast axiom fn ax_r_lits() ensures
         #[trigger] R(0.0f32) == 0real, R(1.0f32) == 1real, R(2.0f32) == 2real, R(3.0f32) == 3real, R(0.5f32) == 0.5real,
         R(-1.0f32) == -1real, R(1_000_000_000.0f32) == 1000000000real;
-    pub broadcast group a3 { ax_r_add, ax_r_sub, ax_r_mul, ax_r_div, ax_r_neg, ax_r_i2f, ax_r_eq, ax_r_cmp, ax_r_lits }
+    pub broadcast group a3 { ax_r_abs, ax_r_f2i, ax_r_add, ax_r_sub, ax_r_mul, ax_r_div, ax_r_neg, ax_r_i2f, ax_r_eq, ax_r_cmp, ax_r_lits }
 }
 use ideal::R;
